@@ -60,6 +60,13 @@ pub fn interesting_offsets(data: &[u8], max: usize) -> Vec<usize> {
             0x80..=0xBF if i > skip => v.push(i), // inside a multi-byte UTF-8 sequence
             _ => {}
         }
+        if matches!(enc, crate::corpus::Enc::Utf16Le | crate::corpus::Enc::Utf16Be) && matches!(b, 0x0A | 0x0D) && i >= skip {
+            // inside / around a code unit one of whose bytes is a CR or LF byte (U+0Axx, U+xx0A, ...)
+            v.push(i);
+            v.push(i + 1);
+            v.push((i - skip) / 2 * 2 + skip);
+            v.push((i - skip) / 2 * 2 + skip + 2);
+        }
     }
     v.retain(|&o| o > 0 && o < data.len());
     v.sort_unstable();
@@ -96,6 +103,11 @@ pub fn plan_transport(rng: &mut Rng, plan: &mut Plan, sim_only: bool) {
         }
     };
     plan.set("t", t);
+    if [T_FROM_STR, T_FROM_PATH, T_FROM_PATH_PIPE, T_SLICE].contains(&t) && rng.chance(1, 2) {
+        // the full decoder's own entry points (Beatmap::from_bytes / str::parse / Beatmap::from_path) instead of the
+        // generic functions; no effect for the section decoders
+        plan.set("inherent", 1);
+    }
     if t == T_CHAIN {
         plan.set("split", rng.below(len + 1) as i64);
     }
@@ -256,6 +268,21 @@ pub struct Via {
 
 /// Decode `plan.data` with `dec` through the planned transport.
 pub fn decode_via(plan: &Plan, dec: Dec, st: &mut Stats) -> Via {
+    struct Reset;
+    impl Drop for Reset {
+        fn drop(&mut self) {
+            crate::probe::INHERENT.with(|i| i.set(false));
+        }
+    }
+    let _reset = Reset;
+    if plan.get("inherent") != 0 && dec == Dec::Beatmap {
+        crate::probe::INHERENT.with(|i| i.set(true));
+        st.inc("transport.entry-points-of-Beatmap-itself");
+    }
+    decode_via_inner(plan, dec, st)
+}
+
+fn decode_via_inner(plan: &Plan, dec: Dec, st: &mut Stats) -> Via {
     let data = &plan.data[..];
     let t = plan.get("t");
     st.inc(transport_name(t));
@@ -288,6 +315,7 @@ pub fn decode_via(plan: &Plan, dec: Dec, st: &mut Stats) -> Via {
             note_read_stats(st, data, &dev.st);
             Via { out, rs: Some(dev.st), err_is_injected: inj }
         }
+        T_SLICE if plan.get("inherent") != 0 => Via { out: conv(from_bytes_fp(dec, data)).0, rs: None, err_is_injected: false },
         T_SLICE => Via { out: conv(decode_fp(dec, data)).0, rs: None, err_is_injected: false },
         T_CURSOR => Via { out: conv(decode_fp(dec, Cursor::new(data.to_vec()))).0, rs: None, err_is_injected: false },
         T_FROM_STR => match std::str::from_utf8(data) {
